@@ -226,7 +226,37 @@ def leaf_shapes(node):
     return tuple(node['shape']), ITEM[node['t']]
 
 
+def warm_up(obj, node):
+    """touch cached views / use the operand before the tree does (leaf reuse with a warm cache)"""
+    for w in node.get('warm', []):
+        if w == 'wod':
+            obj.wod
+        elif w == 'antimask':
+            obj.antimask
+        elif w == 'mul2':
+            obj * 2
+        elif w == 'self_mul':
+            if node['t'] == 'S':
+                obj * obj
+        elif w == 'func':
+            if node['t'] == 'S':
+                obj.sin()
+            elif node['t'] in ('V2', 'V3', 'Q'):
+                obj.norm_sq()
+            else:
+                obj.transpose()
+        elif w == 'without_derivs':
+            obj.without_derivs()
+        elif w == 'add0':
+            obj + obj
+    return obj
+
+
 def make_leaf(node, keys, mode, disp=None):
+    return warm_up(_make_leaf(node, keys, mode, disp), node)
+
+
+def _make_leaf(node, keys, mode, disp=None):
     """mode 'full': with derivatives; 'plain': values only, displaced by disp = (key, j, h) along the
     leaf's own derivative"""
     shape, item = leaf_shapes(node)
@@ -252,13 +282,26 @@ def make_leaf(node, keys, mode, disp=None):
 
 
 # --------------------------------------------------------------------------- real evaluation
-def ev(node, keys, mode='full', disp=None, check=False, peak=None):
-    """evaluate on the real code; `check` applies the smoothness guards (raises Bad)"""
+def ev(node, keys, mode='full', disp=None, check=False, peak=None, memo=None):
+    """evaluate on the real code; `check` applies the smoothness guards (raises Bad).
+    Nodes carrying the same 'nid' are ONE object (the tree is a DAG): built once, used several times."""
+    if memo is None:
+        memo = {}
+    nid = node.get('nid')
+    if nid is not None and nid in memo:
+        return memo[nid]
+    q = _ev(node, keys, mode, disp, check, peak, memo)
+    if nid is not None:
+        memo[nid] = q
+    return q
+
+
+def _ev(node, keys, mode, disp, check, peak, memo):
     o = node['op']
     if o == 'leaf':
         q = make_leaf(node, keys, mode, disp)
     else:
-        args = [ev(a, keys, mode, disp, check, peak) for a in node['args']]
+        args = [ev(a, keys, mode, disp, check, peak, memo) for a in node['args']]
         p = node.get('p', {})
         if o in STRUCT:
             q = struct_real(o, args, p)
@@ -319,6 +362,7 @@ class Env:
         self.dirs = [(k, j) for k in sorted(keys) for j in range(int(np.prod(keys[k], dtype=int)))]
         self.env, self.um = [], []
         self.denv = {d: [] for d in self.dirs}
+        self.memo = {}
 
 
 def obj_array(shape, items):
@@ -330,7 +374,17 @@ def obj_array(shape, items):
 
 def sym(node, E):
     """np object array (array shape of the node) of item-level programs, or None if some operation of
-    the tree has no model"""
+    the tree has no model; shared nodes ('nid') are expanded (the model is a pure function of the tree)"""
+    nid = node.get('nid')
+    if nid is not None and nid in E.memo:
+        return E.memo[nid]
+    r = _sym(node, E)
+    if nid is not None:
+        E.memo[nid] = r
+    return r
+
+
+def _sym(node, E):
     o = node['op']
     if o == 'leaf':
         shape, item = leaf_shapes(node)
